@@ -45,6 +45,13 @@ pub fn set_case(k: i64) {
     s.case = k;
     s.seen.clear();
 }
+/// between the steps of a session: another case, the log of what the implementations saw is kept
+pub fn set_case_keep(k: i64) {
+    STATE.lock().unwrap_or_else(|e| e.into_inner()).case = k;
+}
+pub fn seen_len() -> usize {
+    STATE.lock().unwrap_or_else(|e| e.into_inner()).seen.len()
+}
 pub fn current_case() -> i64 {
     STATE.lock().unwrap_or_else(|e| e.into_inner()).case
 }
@@ -217,6 +224,85 @@ pub struct Handlers {
     pub probe: fn(&str, Value) -> Option<Sx>,
     pub call: fn(i64, Arc<RwLock<varlink::Connection>>) -> Vec<Sx>,
     pub service: fn() -> varlink::VarlinkService,
+    /// client side of the compiled-in call cases, one per generated interface of a session binary
+    pub session: Vec<fn(i64, Arc<RwLock<varlink::Connection>>) -> Vec<Sx>>,
+}
+
+/// one raw request written on the shared connection by hand, one reply read back
+fn raw_step(conn: &Arc<RwLock<varlink::Connection>>, bytes: &[u8]) -> Sx {
+    let mut c = conn.write().unwrap();
+    let (mut w, mut r) = match (c.writer.take(), c.reader.take()) {
+        (Some(w), Some(r)) => (w, r),
+        (w, r) => {
+            c.writer = w;
+            c.reader = r;
+            return sx::tagged("r", vec![sx::atom("busy")]);
+        }
+    };
+    let res = (|| -> std::io::Result<Vec<u8>> {
+        w.write_all(bytes)?;
+        w.flush()?;
+        let mut buf = Vec::new();
+        r.read_until(0, &mut buf)?;
+        Ok(buf)
+    })();
+    c.writer = Some(w);
+    c.reader = Some(r);
+    match res {
+        Ok(buf) if buf.is_empty() => sx::tagged("r", vec![sx::atom("closed")]),
+        Ok(buf) => {
+            let mut l = vec![];
+            l.extend(frames(&buf));
+            sx::tagged("r", l)
+        }
+        Err(_) => sx::tagged("r", vec![sx::atom("io")]),
+    }
+}
+
+/// `(session (g IFACE K oneway?) | (r b<bytes>) …)`: the steps one after the other over ONE connection
+fn session(h: &Handlers, steps: &[Sx]) -> Sx {
+    set_case(-1);
+    let steps: Vec<Sx> = steps.to_vec();
+    let fns = h.session.clone();
+    let r = run_loop((h.service)(), move |conn| {
+        let mut out = Vec::new();
+        for st in &steps {
+            let l = match st.as_list() {
+                Some(l) if !l.is_empty() => l,
+                _ => continue,
+            };
+            match l[0].as_atom().unwrap_or("") {
+                "g" => {
+                    let i: usize = l.get(1).and_then(|x| x.as_atom()).and_then(|a| a.parse().ok()).unwrap_or(0);
+                    let k: i64 = l.get(2).and_then(|x| x.as_atom()).and_then(|a| a.parse().ok()).unwrap_or(-1);
+                    let oneway = l.get(3).and_then(|x| x.as_atom()) == Some("t");
+                    let before = seen_len();
+                    set_case_keep(k);
+                    let outs = match fns.get(i) {
+                        Some(f) => f(k, conn.clone()),
+                        None => vec![sx::atom("no-such-interface")],
+                    };
+                    if oneway && (outs.is_empty() || outs.first().and_then(|x| x.as_atom()) == Some("ok-oneway")) {
+                        // the server handles the request in its own time: wait until the implementation has seen it
+                        let t0 = std::time::Instant::now();
+                        while seen_len() == before && t0.elapsed() < std::time::Duration::from_secs(3) {
+                            std::thread::sleep(std::time::Duration::from_millis(2));
+                        }
+                    }
+                    out.push(sx::tagged("g", outs));
+                }
+                "r" => {
+                    set_case_keep(-1);
+                    let b = l.get(1).and_then(|x| x.as_bytes()).unwrap_or_default();
+                    out.push(raw_step(&conn, &b));
+                }
+                _ => out.push(sx::atom("bad-step")),
+            }
+        }
+        out
+    });
+    set_case(-1);
+    sx::tagged("session", vec![r])
 }
 
 fn one(h: &Handlers, cmd: &Sx) -> Sx {
@@ -244,6 +330,7 @@ fn one(h: &Handlers, cmd: &Sx) -> Sx {
             set_case(-1);
             r
         }
+        "session" => session(h, &l[1..]),
         "desc" => {
             // the description constant the generator emitted, compared with the definition text byte by byte
             let expected = l.get(1).and_then(|x| x.as_str()).unwrap_or_default();
